@@ -56,6 +56,12 @@ POOL = [
     ("nil.try.{|u| import(\"../lib/syntaxerr\")}.err.S.p; import(\"../lib/good\").v.p", "zzunused := 0"),
     ("g := import(\"../lib/good\"); [g.v, g.keys].p; nil.try.{|u| import(\"../lib/broken\")}.val.p", "zzunused := 0"),
     ("import(\"../lib/broken\")", "zzunused := 0"),
+    # standard modules invited into the program's scope (at top level, inside a function), and programs that ask for the names they define
+    "invite!(\"dummy\"); message.p", "invite!(\"dummy_native\"); message", "invite!(\"http\"); [Response.new(status: 201).status, C.keys, Server.keys].p",
+    "f := {|| invite!(\"dummy\"); message}; f().p; nil.try.{|u| message}.A.p", "d := import(\"dummy\"); d.message.p; nil.try.{|u| message}.A.p",
+    "nil.try.{|u| message}.A", "[nil.try.{|u| Response}.err.S, nil.try.{|u| Client}.err.S, nil.try.{|u| C}.err.S, nil.try.{|u| Server}.err.S, nil.try.{|u| _internal}.err.S].p",
+    # programs that read part, all, or more than all of their standard input
+    "[<>, <>]", "<>; <>; <>", "a := <>; a.p; 1",
 ]
 SHARED = {"lib/broken.pangaea": "v := 1\nraise Err.new(\"boom\")\n", "lib/syntaxerr.pangaea": "v := (1 +\n", "lib/good.pangaea": "v := 42; \"loading good\".p\n"}
 HELPER = {i: p[1] for i, p in enumerate(POOL) if isinstance(p, tuple)}
